@@ -41,6 +41,9 @@ class Verifier(Stmts):
         self.key_projection = {}
         self.ctor_param_fields = {}
         self.vacuity = []
+        self._pyeq_defined = set()
+        self.opaque_eq_classes = set()
+        self.used_contracts = set()
         self.singletons = {}        # id(real module-level object) -> (object, StateShape): modelled as a heap object
         self.singleton_refs = {}
         self.ghost_shape = None     # StateShape of the ghost-state object `GS`
@@ -364,6 +367,7 @@ class Verifier(Stmts):
     def apply_contract(self, con, func, args, kwargs, st):
         node, _src = self.func_ast(func)
         qn = con.qualname
+        self.used_contracts.add(qn)
         vals = self.bind_params(node, args, kwargs, st, qn)
         caller = st.frame.qualname
         # an Optional argument for a parameter declared non-Optional: only when it is known not to be None
@@ -546,6 +550,7 @@ class Verifier(Stmts):
         own obligations are part of the same check and the function is deterministic (normal return is a predicate of
         the arguments)."""
         con = self.contracts[qualname]
+        self.used_contracts.add(qualname)
         func = self.resolve(qualname)
         node, _ = self.func_ast(func)
         names = [a.arg for a in node.args.args]
@@ -708,6 +713,10 @@ class Verifier(Stmts):
                 out.append(lv)
         return out
 
+    @staticmethod
+    def _trivial_size(h):
+        return False
+
     def _try(self, hyps, goal, timeout_ms, seed=None):
         s = self._solver(timeout_ms)
         if seed is not None:
@@ -717,10 +726,42 @@ class Verifier(Stmts):
         s.add(z3.Not(goal))
         return s.check(), s
 
+    @staticmethod
+    def split_goal(g):
+        """A ==> (B and C)  ~>  [A ==> B, A ==> C]   (so that every universally quantified conjunct is skolemised alone)"""
+        if z3.is_and(g):
+            out = []
+            for c in g.children():
+                out.extend(Verifier.split_goal(c))
+            return out
+        if z3.is_implies(g):
+            parts = Verifier.split_goal(g.arg(1))
+            if len(parts) > 1:
+                return [z3.Implies(g.arg(0), p) for p in parts]
+        return [g]
+
     def discharge(self, ob, use_cvc5=True):
         t0 = time.time()
         if z3.is_true(ob.goal):
             ob.status, ob.backend = 'discharged', 'trivial'
+            return ob
+        parts = self.split_goal(ob.goal)
+        if len(parts) > 1 and not getattr(ob, '_is_part', False):
+            from .engine import Obligation
+            backends = []
+            for k, p in enumerate(parts):
+                sub = Obligation(ob.name, ob.hyps, p, ob.where)
+                sub.terms = ob.terms
+                sub._is_part = True
+                self.discharge(sub, use_cvc5)
+                backends.append(sub.backend or '?')
+                if sub.status != 'discharged':
+                    ob.status, ob.backend, ob.model, ob.detail = sub.status, sub.backend, sub.model, \
+                        "conjunct %d of %d: %s" % (k + 1, len(parts), sub.detail)
+                    break
+            else:
+                ob.status, ob.backend = 'discharged', '+'.join(sorted(set(backends)))
+            ob.seconds = time.time() - t0
             return ob
         self.solver_calls += 1
         # 0. quantifier-free hypotheses only (most path obligations need nothing else; dropping hypotheses is sound)
@@ -744,7 +785,13 @@ class Verifier(Stmts):
             #     quantifier-free problem (the typical loop-invariant / element-wise obligation needs nothing else)
             try:
                 from .inst import instantiate
-                for k, lv in enumerate(self.relevance_levels(ob)[:2]):
+                from .inst import _constants
+                gconst = _constants([ob.goal])
+                by_const = [h for h in ob.hyps if (_constants([h]) & gconst) and not self._trivial_size(h)]
+                levels = self.relevance_levels(ob)[:2]
+                if by_const and len(by_const) < len(ob.hyps):
+                    levels.append(by_const)
+                for k, lv in enumerate(levels):
                     fh, fcore, fn_, _fl = instantiate(lv, ob.goal, rounds=2, focused=True, extra_terms=ob.terms,
                                                       max_instances=600)
                     rf, _sf = self._try(fh, fcore, min(3000, self.timeout_ms))
